@@ -249,6 +249,10 @@ fn run_case(c: &Case, msgs: &[Option<Msg>], seed: u64, st: &mut Stats) {
                     return Err(format!("no end-of-stream after {} reads", calls));
                 }
                 match rd.read(&mut buf) {
+                    Ok(0) if sz == 0 => {
+                        // a zero-length buffer is not end-of-stream; the stream must go on afterwards
+                        i += 1;
+                    }
                     Ok(0) => {
                         zeros += 1;
                         if zeros == 3 {
@@ -296,6 +300,9 @@ fn run_case(c: &Case, msgs: &[Option<Msg>], seed: u64, st: &mut Stats) {
                     return Err(format!("no end-of-stream after {} reads", calls));
                 }
                 match rd.read(&mut buf).await {
+                    Ok(0) if sz == 0 => {
+                        i += 1;
+                    }
                     Ok(0) => {
                         zeros += 1;
                         if zeros == 3 {
@@ -378,7 +385,7 @@ pub fn run(ctx: &Ctx) -> ! {
     let mut rep = Report::new(
         ctx,
         "model_checking",
-        "messages {empty operation group, Print-Job request, Get-Printer-Attributes response, bare IppPayload} x payload source {none, blocking cursor, blocking 1-byte dribbler, blocking with Interrupted, async ready, async fragmented, async not-ready with immediate wake, async not-ready with deferred wake (fired by the manual executor / a helper thread under block_on)} x payload length {0,1,2,8191,8192,8193 (+65536, 3 MiB)} x consumer {into_read, into_async_read} with EVERY sequence of <= 2 (3) buffer sizes over {1,2,3,8,H-1,H,H+1,4096,65536} followed by a fixed size from {7,4096,65536} until end-of-stream. Oracle: bytes received == to_bytes() ++ payload, then Ok(0) three times, payload source untouched until the header was delivered. states = distinct (message, source, length, interface); transitions = reads answered by the payload source; non-trivial = non-empty payload",
+        "messages {empty operation group, Print-Job request, Get-Printer-Attributes response, bare IppPayload} x payload source {none, blocking cursor, blocking 1-byte dribbler, blocking with Interrupted, async ready, async fragmented, async not-ready with immediate wake, async not-ready with deferred wake (fired by the manual executor / a helper thread under block_on)} x payload length {0,1,2,8191,8192,8193 (+65536, 3 MiB)} x consumer {into_read, into_async_read} with EVERY sequence of <= 2 (3) buffer sizes over {0,1,2,3,8,H-1,H,H+1,4096,65536} (a zero-length buffer must return 0 without ending the stream) followed by a fixed size from {7,4096,65536} until end-of-stream. Oracle: bytes received == to_bytes() ++ payload, then Ok(0) three times, payload source untouched until the header was delivered. states = distinct (message, source, length, interface); transitions = reads answered by the payload source; non-trivial = non-empty payload",
     );
     rep.assume("deferred wake-ups under the blocking interface are fired by a helper OS thread (block_on must be woken from outside); its timing does not influence the byte stream");
     let msgs = messages();
@@ -399,7 +406,7 @@ pub fn run(ctx: &Ctx) -> ! {
         rep.absorb(st);
         rep.finish();
     }
-    let alphabet: [usize; 9] = [1, 2, 3, 8, 1_000_001, 1_000_002, 1_000_003, 4096, 65536];
+    let alphabet: [usize; 10] = [0, 1, 2, 3, 8, 1_000_001, 1_000_002, 1_000_003, 4096, 65536];
     let maxp = ctx.tier.pick(2usize, 3usize);
     let mut patterns: Vec<Vec<usize>> = vec![vec![]];
     let mut layer: Vec<Vec<usize>> = vec![vec![]];
